@@ -61,6 +61,14 @@ func Solve(o *Obligation, outDir string, timeoutS int, seed int, all bool) *Solv
 	}
 	os.WriteFile(file, []byte(text), 0o644)
 	res := &SolveResult{Status: "unknown", All: map[string]string{}, File: file}
+	// an obligation whose goal is literally false (a call the contract expects is not in the
+	// function, a forbidden call is) is decided by construction: no solver is asked
+	if strings.TrimSpace(o.Goal) == "false" && !o.Cover {
+		res.Status = "sat"
+		res.Solver = "none (goal is false by construction)"
+		res.All["none"] = "goal false by construction"
+		return res
+	}
 	ctx, cancel := context.WithCancel(context.Background())
 	defer cancel()
 	type ans struct {
